@@ -9,15 +9,15 @@ SEEDED = os.path.join(ROOT, "seeded")
 
 def do_import():
     for d in sorted(os.listdir("/tmp/mut")):
-        if not (d.endswith("-out") or d.endswith("-out2")):
+        if not (d.endswith("-out") or d.endswith("-out2") or d.endswith("-out3")):
             continue
-        rnd2 = d.endswith("-out2")
+        off = 4 if d.endswith("-out3") else 2 if d.endswith("-out2") else 0
         pid = d.split("-out")[0]
         for k in (1, 2):
             src = f"/tmp/mut/{d}"
             if not os.path.exists(f"{src}/patch{k}.diff"):
                 continue
-            dst = os.path.join(SEEDED, f"{pid}-{k + 2 if rnd2 else k}")
+            dst = os.path.join(SEEDED, f"{pid}-{k + off}")
             os.makedirs(dst, exist_ok=True)
             shutil.copy(f"{src}/patch{k}.diff", f"{dst}/patch.diff")
             if os.path.isdir(f"{dst}/demo"):
